@@ -155,6 +155,10 @@ OnTx(rs, e) ==
   LET s == e.st  b == e.b  k == Kind(b)  cfg == rs.cfg  St == rs.St
       last == rs.last  gap == e.t0 - last.t1
       cls == Class(rs, e)
+      \* signature of known finding F17: a claim token sent while another station's telegram is still on the wire,
+      \* by a station that came online after that telegram had started (it cannot decode what it hears and does not
+      \* count it as bus activity)
+      f17 == k = "token" /\ Da(b) = s /\ Sa(b) = s /\ last.by \notin {-1, s} /\ e.t0 < last.t1 /\ rs.since[s] > last.t0
       single == cfg.mode = "single"         \* one station against a scripted, possibly non-conforming peer
       judged == ~rs.disturbed               \* fault-free premise (C01 C11 C12 C13 C15)
       jring == judged /\ ~single            \* clauses that presuppose conforming partners
@@ -279,7 +283,7 @@ OnTx(rs, e) ==
              ELSE IF cls = "None" THEN [rs7 EXCEPT !.goodTokens = 0] ELSE rs7
       rs9 == TryReach(rs8, e.t1)
       reachHit == IF ~rs.reached /\ rs9.reached THEN <<ConvProp(rs) \o ".converge">> ELSE <<>>
-  IN RA(allc, [cls |-> cls, kind |-> k, st |-> s], rs9, hits \o reachHit)
+  IN RA(allc, [cls |-> cls, kind |-> k, st |-> s, f17 |-> f17], rs9, hits \o reachHit)
 
 (* ------------------------------------------------------------------ transmissions of environment actors *)
 (* scripted peers, reference slaves: they update what is on the wire but are not judged *)
@@ -355,7 +359,7 @@ OnPoll(rs, e) ==
               \o (IF ~wasReached /\ rs2.reached THEN <<ConvProp(rs) \o ".converge">> ELSE <<>>)
       \* a cadence overrun is reported once: restart the counters
       rs3 == IF cadOk THEN rs2 ELSE [rs2 EXCEPT !.cadBad = FALSE]
-  IN RA(cs, [st |-> s], rs3, hits)
+  IN RA(cs, [st |-> s, f17 |-> (becomesReady /\ rs.last.by \notin {-1, s} /\ e.t < rs.last.t1 /\ rs.since[s] > rs.last.t0)], rs3, hits)
 
 (* ------------------------------------------------------------------ Cb (C15) *)
 OnCb(rs, e) ==
